@@ -96,7 +96,23 @@ def return_summaries(prog, own, modules):
 def deep_write_summary(own, fi):
     """attributes of `self` that an in-place method writes in place (not merely re-binds)"""
     out = set()
+    alias_env = None
     for st, kind, root, attr, desc in own.write_sites(fi):
+        if kind == 'deep' and attr is None and isinstance(root, ast.Name) and root.id != 'self':
+            # element store through a local: does a plain alias `x = self.attr` reach it?
+            if alias_env is None:
+                from ..flow import reaching_defs
+                cfg_, rd_ = reaching_defs(fi.func, by_line=True)
+                keyed = {(key_text(s2), s2.lineno): s2 for s2 in stmts_of(fi.func)}
+                alias_env = (cfg_, rd_, keyed)
+            cfg_, rd_, keyed = alias_env
+            for nd in cfg_.nodes_of(st):
+                for k_ in rd_.get(nd.id, {}).get(root.id, ()):
+                    d = keyed.get(k_)
+                    if isinstance(d, ast.Assign) and len(d.targets) == 1 and isinstance(
+                            d.targets[0], ast.Name) and is_self_attr(d.value):
+                        out.add(d.value.attr)
+            continue
         if not (isinstance(root, ast.Name) and root.id == 'self'):
             continue
         if kind == 'deep' and attr is not None:
